@@ -250,10 +250,23 @@ def effectiveCwdS (resolveCd : String → String → String) (parts : List Node)
 abbrev effectiveCwd (w : World) (parts : List Node) (cwd : String) (remote : Bool) : String :=
   effectiveCwdS w.resolveCd parts cwd remote
 
+/-- `_FD_PREFIX_RE.sub("", op)`: drop a leading `N` or `{name}` -/
+def stripFd (op : String) : String :=
+  match op.toList with
+  | '{' :: c :: t =>
+    if isNameStart c then
+      (match (t.dropWhile isNameChar) with
+       | '}' :: r => String.ofList r
+       | _ => op)
+    else op
+  | l =>
+    let ds := l.takeWhile Char.isDigit
+    if ds.isEmpty then op else String.ofList (l.dropWhile Char.isDigit)
+
 /-- decision for one file redirect once the target text is known -/
 def redirectDecision (w : World) (op target cwd : String) : List Decision :=
-  if w.safeTarget target || Py.startsWith target "&" then []
-  else if w.redirectOp op then
+  if (w.safeTarget target && target != "-") || Py.startsWith target "&" then []
+  else if w.redirectOp (stripFd op) then
     match w.matchRedirect target cwd with
     | some m =>
       match m.decision with
